@@ -364,6 +364,24 @@ def run(P, R, tier):
             R.floor('C10.c', 'compaction move sites', len(mv), 1)
     for c in mv:
         loop = _enclosing(c, ast.For)
+        comp = None
+        if loop is None:
+            # `[move(p1, p2) for p1, p2 in zip(...)]`: a list comprehension evaluates its element expression serially, in iteration order
+            comp = _enclosing(c, ast.ListComp)
+            if comp is not None and len(comp.generators) == 1:
+                loop = comp.generators[0]
+        # serial, ascending: the moves form a chain (parts 0,2,3 -> 0,1,2: name 2 is the target of one move and the source of the next), so each move must have
+        # completed before the next one starts, in ascending order.  A move wrapped into a task (delayed(f)(..), submit(f, ..)) or iterated in reverse breaks the chain.
+        direct = isinstance(c.func, (ast.Name, ast.Attribute)) and not (isinstance(c.func, ast.Attribute) and c.func.attr in ('submit', 'map', 'apply_async'))
+        rev = False
+        if loop is not None:
+            it = astq.expand(F, loop.iter)
+            rev = any((isinstance(x, ast.Call) and norm(x.func) in ('reversed',)) or (isinstance(x, ast.Slice) and x.step is not None and norm(x.step).startswith('-'))
+                      or (isinstance(x, ast.keyword) and x.arg == 'reverse') for x in ast.walk(it))
+        R.check(direct and not rev, 'C10.c', F, c, 'the renumbering moves run one after the other, in ascending order (serial chain)',
+                f'`{norm(c)}`: the renumbering moves are ' + ('iterated in reverse' if rev else 'wrapped into tasks that may run concurrently or in any order') +
+                ': the target name of one move is the source name of the next (parts 0, 2, 3 -> 0, 1, 2), so a later move can overwrite a file before it was moved away',
+                construct='renumbering moves not serial')
         ok = False
         detail = ''
         if loop is not None and isinstance(loop.iter, ast.Call) and norm(loop.iter.func) == 'zip' and len(loop.iter.args) >= 2:
